@@ -16,7 +16,7 @@ CHECKS = {
         "technique": "model-based stateful property testing (rapid): generated op sequences vs. an ordered-map model",
         "design_ref": "DESIGN.md §5 C01",
         "quick": {"shards": 16, "n": 1200, "timeout": 600},
-        "thorough": {"shards": 16, "n": 60000, "timeout": 3000},
+        "thorough": {"shards": 16, "n": 30000, "timeout": 3400},
         "floor": {"quick": 1500, "thorough": 50000},
         "rule": "rapid draws (options, comparer, key pool, 10-250 ops: put/del/batch/large batch/get/compact/reopen/idle/snapshot/scan); "
                 "every write is followed by Get+Has of the touched keys, every CompactRange/reopen and the end of the case by Get+Has of all pool keys and a full scan, all compared with a map model. "
@@ -43,7 +43,7 @@ CHECKS = {
         "test": "TestC03", "level": "exploration",
         "technique": "model-based stateful property testing (rapid): persistent model copies per snapshot/iterator",
         "quick": {"shards": 16, "n": 400, "timeout": 600},
-        "thorough": {"shards": 16, "n": 20000, "timeout": 3000},
+        "thorough": {"shards": 16, "n": 10000, "timeout": 3400},
         "floor": {"quick": 1000, "thorough": 30000},
         "rule": "rapid draws histories with up to 6 simultaneously live snapshots and 4 live iterators, point reads / scans / resumed walks through them, interleaved with writes, deletes, flushes, automatic and manual compactions; each handle is compared with the model copy taken at its creation, and after releasing one handle all others and the live DB are re-checked. "
                 "Non-trivial: a handle was read after a table compaction that ran after a key visible through it had been overwritten or deleted.",
@@ -55,7 +55,7 @@ CHECKS = {
         "test": "TestC06", "level": "exploration",
         "technique": "stateful property testing with a validity predicate evaluated on every installed version (pinned through the verif version-observer hook)",
         "quick": {"shards": 16, "n": 500, "timeout": 600},
-        "thorough": {"shards": 16, "n": 25000, "timeout": 3000},
+        "thorough": {"shards": 16, "n": 12000, "timeout": 3400},
         "floor": {"quick": 1000, "thorough": 20000},
         "rule": "rapid draws histories (flushes, automatic/seek/manual compactions, trivial moves, transactions, large batches, reopen) under all comparers and size options; EVERY version installed by the session is handed to the checker pinned, all its tables are read back from storage with table.NewReader under the real internal comparer and checked: file exists with recorded size, entries strictly increasing and parsable, recorded smallest/largest = first/last entry, levels>=1 sorted with strictly disjoint user-key ranges, and for every user key every entry in a shallower level is newer than every entry in a deeper level. "
                 "Non-trivial: the case installed a version with >=2 non-empty levels and >=2 files in some level >=1.",
@@ -67,7 +67,7 @@ CHECKS = {
         "test": "TestC07", "level": "exploration",
         "technique": "stateful property testing: long-lived iterators vs. model copies plus storage-listing invariants at quiescence",
         "quick": {"shards": 12, "n": 300, "timeout": 600, "extra": [{"test": "TestC07F", "n": 120, "shards": 5}, {"test": "TestC07S", "n": 40, "shards": 3}]},
-        "thorough": {"shards": 12, "n": 12000, "timeout": 3000, "extra": [{"test": "TestC07F", "n": 4000, "shards": 5}, {"test": "TestC07S", "n": 1500, "shards": 3}]},
+        "thorough": {"shards": 12, "n": 8000, "timeout": 3400, "extra": [{"test": "TestC07F", "n": 3000, "shards": 5}, {"test": "TestC07S", "n": 1000, "shards": 3}]},
         "floor": {"quick": 300, "thorough": 10000},
         "rule": "rapid draws histories with long-lived iterators (OpenFilesCacheCapacity 1-2 so tables are reopened from storage), compactions, discarded transactions and reopen. Oracle A: every iterator is walked and fully scanned at the end and must equal its model copy; the storage flags any Open of a removed table. "
                 "Oracle B: at idle points (VerifWaitIdle) with no iterator or transaction alive, and after reopen, storage must hold exactly the live tables, one journal, the current manifest. TestC07F: the fault workloads of C08 (no Remove faults) judged on the same 'no residue' rule once the injected failures have stopped and work has settled, and again after reopen. TestC07S (metamorphic): N rounds of rewriting the same K keys + full CompactRange must not make the table bytes grow with N (<= 2x round 1 + 4 KiB); deleting every key + full CompactRange with no snapshot held must leave <= 10% + 1 KiB of the previous table bytes. Non-trivial: an iterator stayed alive across >=1 table removal and >=1 file-set check ran.",
@@ -79,7 +79,7 @@ CHECKS = {
         "test": "TestC11", "level": "exploration",
         "technique": "model-based stateful property testing (rapid): transaction overlay model",
         "quick": {"shards": 12, "n": 700, "timeout": 600, "extra": [{"test": "TestC11F", "n": 120, "shards": 6}]},
-        "thorough": {"shards": 12, "n": 30000, "timeout": 3000, "extra": [{"test": "TestC11F", "n": 4000, "shards": 6}]},
+        "thorough": {"shards": 12, "n": 20000, "timeout": 3400, "extra": [{"test": "TestC11F", "n": 3000, "shards": 6}]},
         "floor": {"quick": 1000, "thorough": 20000},
         "rule": "rapid draws histories with OpenTransaction, transaction writes spanning several internal flushes, reads inside (overlay model) and outside (model at open) the transaction, Commit, Discard, Close with an open transaction, oversized DB.Write batches; after Discard/Commit/reopen a full sweep is compared with the model and, at idle, storage must contain no table outside the live set. "
                 "Non-trivial: a transaction was committed or discarded in a case that also flushed buffers.",
@@ -91,7 +91,7 @@ CHECKS = {
         "test": "TestC20", "level": "exploration",
         "technique": "stateful property testing in poison mode: argument and result buffers are overwritten after every call",
         "quick": {"shards": 16, "n": 900, "timeout": 600},
-        "thorough": {"shards": 16, "n": 40000, "timeout": 3000},
+        "thorough": {"shards": 16, "n": 30000, "timeout": 3400},
         "floor": {"quick": 1000, "thorough": 20000},
         "rule": "the C01 machine in poison mode: every key/value/batch buffer passed to Put/Delete/Write/Batch.Put/Batch.Delete/Seek is compared with a pre-call copy and then overwritten with 0xAA; every value returned by DB.Get / Transaction.Get is overwritten; iterator Key/Value are copied and compared again after further DB activity before the iterator moves; buffer pool, block cache and compression are drawn. All later reads are compared with a model built from private copies. "
                 "Non-trivial: >=2 Get results that came after flush+compaction (i.e. from table blocks) were scribbled and keys re-read.",
@@ -119,7 +119,7 @@ CHECKS = {
         "technique": "property-based round-trip testing of table.Writer/Reader with cursor-model walks and single-byte alteration (rapid)",
         "quick": {"shards": 16, "n": 250, "timeout": 600},
         "thorough": {"shards": 16, "n": 15000, "timeout": 3000},
-        "floor": {"quick": 300, "thorough": 10000},
+        "floor": {"quick": 200, "thorough": 10000},
         "shrink": False,
         "rule": "rapid draws sorted key/value sets (0..2000 entries; hostile keys, long shared prefixes, 0xff runs, empty values, values larger than a block), block size 1..4096, restart interval 1..64, compression, bloom bits and filter base, block cache and buffer pool on/off, the comparer (bytewise and contract-conforming custom ones, raw and through the real internal comparer with several versions per user key); then Get/Find/FindKey (filtered and not) of stored keys and of probes between/outside them, OffsetOf monotonicity, range-restricted iterators with drawn walks compared move by move with a cursor model plus full forward/backward passes; then one altered byte at a drawn offset before the footer: every stored key is returned with its own value or a non-not-found error, a scan yields original pairs in order and reports an error if any pair is missing. "
                 "Non-trivial: >=2 data blocks, a range with both bounds strictly inside, and a walk with a direction reversal.",
@@ -131,7 +131,7 @@ CHECKS = {
         "test": "TestC14", "level": "exploration", "engine": "component",
         "technique": "model-based property testing of memdb (rapid) with a sampled concurrent one-writer/many-readers phase",
         "quick": {"shards": 16, "n": 1500, "timeout": 600},
-        "thorough": {"shards": 16, "n": 100000, "timeout": 3000, "race": True},
+        "thorough": {"shards": 16, "n": 40000, "timeout": 3400, "race": True},
         "floor": {"quick": 2000, "thorough": 50000},
         "shrink": False,
         "rule": "rapid draws op lists over hostile keys and all comparers: Put (overwrites changing the value length), Delete (incl. absent keys), Get/Contains, Find, ranged iterator walks against the cursor model, Reset and reuse; Len and Size are compared with the model after every op and slices handed out earlier must keep their contents. About every 8th case adds a concurrent phase: one writer putting 200-3000 keys (with overwrites of varying length) while 2-8 readers walk forwards/backwards and look up: keys strictly ordered, every pair was stored, keys present before the walk are not skipped, a finished Put is visible. "
@@ -172,7 +172,7 @@ CHECKS = {
         "test": "TestC17", "level": "exploration", "engine": "component",
         "technique": "property-based testing of generated concurrent cache programs with instrumented values (sampled schedules)",
         "quick": {"shards": 16, "n": 150, "timeout": 600},
-        "thorough": {"shards": 16, "n": 8000, "timeout": 3000, "race": True},
+        "thorough": {"shards": 16, "n": 3000, "timeout": 3400, "race": True},
         "floor": {"quick": 1000, "thorough": 30000},
         "shrink": False,
         "replay_runs": 50,
@@ -186,7 +186,7 @@ CHECKS = {
         "test": "TestC18", "level": "exploration", "engine": "dbm",
         "technique": "property-based lifecycle scripts over generated histories, with the checker's storage as mutation log",
         "quick": {"shards": 13, "n": 300, "timeout": 600, "extra": [{"test": "TestC18S", "n": 150, "shards": 3}]},
-        "thorough": {"shards": 13, "n": 14000, "timeout": 3000, "extra": [{"test": "TestC18S", "n": 20000, "shards": 3}]},
+        "thorough": {"shards": 13, "n": 6000, "timeout": 3400, "extra": [{"test": "TestC18S", "n": 8000, "shards": 3}]},
         "floor": {"quick": 1000, "thorough": 20000},
         "shrink": False,
         "replay_runs": 10,
@@ -200,7 +200,7 @@ CHECKS = {
         "test": "TestC19", "level": "exploration", "engine": "dbm",
         "technique": "property-based testing of leveldb.Recover over generated settled layouts with manifest loss and table-block damage; physical-entry oracle from the checker's own table/journal parsers",
         "quick": {"shards": 16, "n": 700, "timeout": 600},
-        "thorough": {"shards": 16, "n": 15000, "timeout": 3000},
+        "thorough": {"shards": 16, "n": 8000, "timeout": 3400},
         "floor": {"quick": 500, "thorough": 10000},
         "replay_runs": 5,
         "rule": "rapid draws a history (all layouts, overwritten and deleted keys, data left in the journal), settles and closes it, then removes / truncates / garbles the manifest or drops CURRENT, optionally alters one byte in 1-4 drawn table data blocks (block map from the checker's own table parser, taken before the damage), calls leveldb.Recover and continues with further generated steps; the C06 well-formedness predicate runs on every version installed by and after Recover. "
@@ -214,7 +214,7 @@ CHECKS = {
         "test": "TestC04", "level": "fault_enumeration", "engine": "crash",
         "technique": "crash-point injection over generated workloads: durability-tracking storage, admissible post-crash images, subset-solver oracle (rapid); thorough enumerates every crash instant of each generated history",
         "quick": {"shards": 16, "n": 1500, "timeout": 600},
-        "thorough": {"shards": 16, "n": 40, "timeout": 3000},
+        "thorough": {"shards": 16, "n": 120, "timeout": 3400},
         "floor": {"quick": 2000, "thorough": 30000},
         "replay_runs": 10,
         "rule": "rapid draws a workload (puts, deletes, batches, oversized batches, explicit transactions, bursts of concurrent writers released together so that they merge, CompactRange, reopen; per-write Sync flags; tiny buffers; MaxManifestFileSize 1/64/1024/default), a crash instant t among the mutating storage operations (counted from before the first Open), a per-file tail mode (unsynced tail lost / kept / cut at a byte / cut+zeros / cut+garbage) and optionally 1-2 further crash instants inside the recovery Open. The storage captures the durable image atomically at t; writes whose call had returned nil with Sync before t (and transactions whose Commit had returned) are mandatory. Oracle: Open(image) succeeds; the full scan R equals apply(S) for some subset S of the issued batches in issue order containing all mandatory ones (linear-time subset solver; values identify their writer); then 0-25 further operations run against the reopened DB with R as model, C06 invariants on every version. "
@@ -227,7 +227,7 @@ CHECKS = {
         "test": "TestC08", "level": "fault_enumeration", "engine": "fault",
         "technique": "fault injection at generated (operation kind, file type, k-th occurrence) positions over generated workloads, subset-solver and per-key admissible-value oracles (rapid)",
         "quick": {"shards": 16, "n": 150, "timeout": 900},
-        "thorough": {"shards": 16, "n": 5000, "timeout": 3400},
+        "thorough": {"shards": 16, "n": 4000, "timeout": 3400},
         "floor": {"quick": 500, "thorough": 15000},
         "replay_runs": 5,
         "rule": "rapid draws a workload (writes with Sync mix, reads, CompactRange, reopen, explicit transactions, oversized batches) and a plan of 1-3 faults (kind in create/open/read/write(short)/sync/close/remove/rename/setmeta x file type journal/table/manifest/any x k-th occurrence x repeat 1,2,5 or until healed), armed and healed at drawn steps. While running, every Get must return an error, or a value that is the effect of the last successful write to the key or of a later failed write. After healing (quiescent) and again after close+reopen the full scan must equal apply(S) with all successful writes in S and failed writes optional (subset solver). Continued use is checked with the full model oracle. A quarter of the cases then alter one byte of a table data block at rest: every read returns the stored value or an error. Calls that do not return within 25 s are counted inconclusive here (C09 decides them). "
@@ -254,7 +254,7 @@ CHECKS = {
         "test": "TestC05", "level": "exploration", "engine": "conc",
         "technique": "property-based generation of concurrent client programs, schedule stretching through verif yield points, linearizability checking of the recorded history with porcupine",
         "quick": {"shards": 16, "n": 400, "timeout": 900, "gomaxprocs": [0, 1, 2, 4]},
-        "thorough": {"shards": 16, "n": 6000, "timeout": 3400, "gomaxprocs": [0, 1, 2, 4, 16]},
+        "thorough": {"shards": 16, "n": 18000, "timeout": 3400, "gomaxprocs": [0, 1, 2, 4, 16]},
         "floor": {"quick": 2000, "thorough": 50000},
         "shrink": False,
         "replay_runs": 300,
